@@ -71,6 +71,8 @@ func runC06(p *Prog, r *Result) {
 	checkIteratorProtocol(p, r, pkg, "syntax", "R06j")
 	r.Rule("R06i", "indexes at a constant position or constant offset on slices and strings in package syntax are dominated by a test of that value's length, or are reasoned exceptions", 60)
 	checkConstIndexes(p, r, pkg, "syntax", "R06i", c06IndexExceptions)
+	r.Rule("R06k", "the read buffer is indexed at the cursor only past a test of the cursor against its length or past a non-zero fill(); fill stores the cursor only as 0 (or under a length test)", 5)
+	checkCursorContract(p, r, pkg, "R06k")
 }
 
 // c06IndexExceptions: function#indexed value -> the invariant relied upon. Reasoned, not proven; a triage run of
@@ -1046,6 +1048,10 @@ func findBspMinus(info *types.Info, fd *ast.FuncDecl, e ast.Expr) ast.Expr {
 }
 
 var c06Controls = []Control{
+	{Name: "fill-skips-prefix-without-length-test", Rule: "R06k", WantKey: "fill#cursor store", File: "syntax/lexer.go",
+		Mutate: ctlReplaceAnywhere("\tp.bsp = 0\n\treturn n\n", "\tp.bsp = 0\n\tif p.offs == 0 && left == 0 && n >= 3 && p.bs[0] == 0xef {\n\t\tp.bsp = 3\n\t}\n\treturn n\n")},
+	{Name: "rune-indexes-without-refill-test", Rule: "R06k", WantKey: "rune#p.bs[p.bsp]", File: "syntax/lexer.go",
+		Mutate: ctlReplaceAnywhere("if p.bsp >= uint(len(p.bs)) && p.fill() == 0 {\n\t\tif len(p.bs) == 0 {", "if p.bsp > uint(len(p.bs)) && p.fill() == 0 {\n\t\tif len(p.bs) == 0 {")},
 	{Name: "stmtsseq-yields-after-stop", Rule: "R06j", WantKey: "StmtsSeq#iterator literal", File: "syntax/parser.go",
 		Mutate: ctlReplaceAnywhere("\t\tif stopped {\n\t\t\treturn // yield must not be called again\n\t\t}\n", "")},
 	{Name: "interactiveseq-ignores-reader-stop", Rule: "R06j", WantKey: "InteractiveSeq#iterator literal", File: "syntax/parser.go",
